@@ -162,6 +162,7 @@ def symexec(lowered, env, paths=True, gather=True):
     from symdf.interp import run_graph
 
     holder = {}
+    lowered = lowered.lower_completely()  # what FrameBase.__dask_graph__ does before materialising
 
     def once():
         parts, it = run_graph(lowered, env)
